@@ -51,7 +51,8 @@ def rand_feature_set(r, n):
             start = "."
         if r.random() < 0.05:
             end = "."
-        feats.append({"id": "f%d" % i, "seqid": r.choice(["chr1", "chr1", "chr1", "chr2"]), "start": start, "end": end,
+        # sequence names that differ only in letter case are different sequences ('chr1' / 'Chr1' / 'CHR1')
+        feats.append({"id": "f%d" % i, "seqid": r.choice(["chr1", "chr1", "chr1", "chr2", "Chr1", "CHR1"]), "start": start, "end": end,
                       "strand": r.choice(["+", "-", "."]), "ftype": r.choice(["gene", "exon", "CDS"]),
                       "parent": None})
     for f in feats[1:]:
@@ -310,7 +311,7 @@ def rand_iquery(r, feats, kinds=KINDS):
         a = boundary_coord(r)
         b = a + r.choice([0, 1, SIZES[0], SIZES[1], SIZES[2]])
     kind = r.choice(kinds)
-    q = {"query": kind, "seqid": r.choice(["chr1", "chr1", "chr1", "chr2"]), "start": a, "end": b,
+    q = {"query": kind, "seqid": r.choice(["chr1", "chr1", "chr1", "chr2", "Chr1", "CHR1"]), "start": a, "end": b,
          "completely_within": r.random() < 0.35, "strand": r.choice([None, None, None, "+", "-"]),
          "featuretype": r.choice([None, None, None, "exon", ["exon", "CDS"], ["gene"]])}
     if kind == "one_sided":
@@ -430,7 +431,7 @@ def run(ctx):
                 if iv(f0["start"]) is not None and iv(f0["end"]) is not None:
                     a, b = iv(f0["start"]) + r.choice([-1, 0, 1]), iv(f0["end"]) + r.choice([-1, 0, 1])
                     a = max(1, a); b = max(a, b)
-            seqid = r.choice(["chr1", "chr1", "chr2", "chrZ"])
+            seqid = r.choice(["chr1", "chr1", "chr2", "chrZ", "Chr1", "CHR1"])
             if 6 <= qi < 9 and half:
                 seqid = f0["seqid"]
             within = r.random() < 0.5
